@@ -147,7 +147,8 @@ def urlHandle (toks impl : List String) : Option Result := do
                 ":p" ++ toString (min s.pool.length 3) }
 
 /-- `c10closeidle`: one forced schedule of `CloseIdleConnections` against a concurrent release (harness/c10idle.go).
-The expectation is what the pool model's `closeIdle` (copy of the idle list, pool emptied under the lock) gives for it:
+The expectation is what the pool model's `reap a idle.length` + closes give for it (`Props/C10.lean:
+close_idle_takes_every_idle_connection`, `close_idle_matches_source`):
 both connections idle at the call are closed, the one released meanwhile is pooled and open, count = idle = 1, the next
 call reuses it (3 dials in all).  A scenario, not a theorem. -/
 def closeIdleExpected : List String := ["1", "1", "0", "1", "1", "ok", "3"]
